@@ -3,7 +3,7 @@
 Every entry here is an *assumption* (listed in the evidence as trusted base) and is differential-tested
 against CPython by engine/pyvc/selftest.py.
 """
-import ast, struct, array, random, logging, threading, builtins, enum, inspect, types, time, re
+import ast, struct, array, random, logging, threading, builtins, enum, inspect, types, time, re, sys
 import z3
 
 from .values import *
@@ -1031,6 +1031,8 @@ def check_elem(E, kind, x):
 def method(E, obj, name, args, kwargs):
     if hasattr(obj, "pyvc_method"):
         return obj.pyvc_method(E, name, args, kwargs)
+    if isinstance(obj, struct.Struct):
+        return StructObj.method(E, obj, name, args, kwargs)
     if isinstance(obj, SSeq):
         return seq_method(E, obj, name, args, kwargs)
     if isinstance(obj, list):
@@ -1536,6 +1538,18 @@ def m_sum(E, it, start=0):
     return wrap_int(r) if not isinstance(r, int) else r
 
 
+@register(divmod)
+def m_divmod(E, a, b):
+    return (binop(E, ast.FloorDiv, a, b), binop(E, ast.Mod, a, b))
+
+
+@register(map)
+def m_map(E, fn, *its):
+    """map(f, xs...) evaluated eagerly over concrete-length iterables (f is called in order; laziness is not modelled)"""
+    cols = [list(E.iterate(it)) for it in its]
+    return [E.call(fn, list(row)) for row in zip(*cols)]
+
+
 @register(abs)
 def m_abs(E, v):
     x = E.as_int(v)
@@ -1621,43 +1635,103 @@ def dec_int(bs, signed, order):
     return v
 
 
+_CODES = {"b": (1, True), "B": (1, False), "h": (2, True), "H": (2, False), "i": (4, True), "I": (4, False),
+          "l": (4, True), "L": (4, False), "q": (8, True), "Q": (8, False)}
+
+
+def parse_fmt(fmt):
+    """(byte order, [(size, signed)] per item) of a struct format with an explicit byte order (no padding), or of a single-octet code"""
+    if isinstance(fmt, bytes):
+        fmt = fmt.decode()
+    if not isinstance(fmt, str):
+        raise Unsupported("struct format %r" % (fmt,))
+    f = fmt.replace(" ", "")
+    order = "big"
+    if f[:1] in "><!=":
+        order = "little" if f[0] == "<" else ("big" if f[0] in ">!" else sys.byteorder)
+        f = f[1:]
+    elif f[:1] == "@" or any(c not in "bB0123456789x" for c in f):
+        raise Unsupported("struct format %r (native alignment)" % fmt)
+    items, cnt = [], ""
+    for c in f:
+        if c.isdigit():
+            cnt += c
+            continue
+        if c not in _CODES:
+            raise Unsupported("struct format %r" % fmt)
+        items += [_CODES[c]] * (int(cnt) if cnt else 1)
+        cnt = ""
+    if cnt:
+        raise Unsupported("struct format %r" % fmt)
+    return order, items
+
+
 @register(struct.pack)
 def m_pack(E, fmt, *vals):
-    if fmt not in _FMT:
-        raise Unsupported("struct format %r" % fmt)
-    n, signed, order = _FMT[fmt]
-    if len(vals) != 1:
-        E.raise_(struct.error, "pack expected 1 item", implicit="struct")
-    v = vals[0]
-    if isinstance(v, SOpt):
-        v = E.deopt(v)
-    if v is None or not is_intlike(v):
-        E.raise_(struct.error, "required argument is not an integer", implicit="struct")
-    x = E.as_int(v)
-    lo, hi = (-(1 << (8 * n - 1)), (1 << (8 * n - 1)) - 1) if signed else (0, (1 << (8 * n)) - 1)
-    if isinstance(x, int):
-        if not (lo <= x <= hi):
+    order, items = parse_fmt(fmt)
+    if len(vals) != len(items):
+        E.raise_(struct.error, "pack expected %d items for packing (got %d)" % (len(items), len(vals)), implicit="struct")
+    out = []
+    for (n, signed), v in zip(items, vals):
+        if isinstance(v, SOpt):
+            v = E.deopt(v)
+        if v is None or not is_intlike(v):
+            E.raise_(struct.error, "required argument is not an integer", implicit="struct")
+        x = E.as_int(v)
+        lo, hi = (-(1 << (8 * n - 1)), (1 << (8 * n - 1)) - 1) if signed else (0, (1 << (8 * n)) - 1)
+        if isinstance(x, int):
+            if not (lo <= x <= hi):
+                E.raise_(struct.error, "argument out of range", implicit="struct")
+        elif not E.branch(z3.And(x >= lo, x <= hi)):
             E.raise_(struct.error, "argument out of range", implicit="struct")
-    elif not E.branch(z3.And(x >= lo, x <= hi)):
-        E.raise_(struct.error, "argument out of range", implicit="struct")
-    return mk_seq("bytes", enc_int(x, n, signed, order))
+        out += enc_int(x, n, signed, order)
+    return mk_seq("bytes", out)
+
+
+def _unpack_at(E, fmt, buf, off, exact):
+    order, items = parse_fmt(fmt)
+    total = sum(n for n, _s in items)
+    s = as_seq(E, buf)
+    if s.kind not in BYTESLIKE:
+        E.raise_(TypeError, "a bytes-like object is required", implicit="struct")
+    need = (zint(s.length) == total) if exact else (zint(s.length) - zint(off) >= total)
+    if isinstance(s.length, int) and isinstance(off, int):
+        ok = (s.length == total) if exact else (s.length - off >= total and off >= 0)
+        if not ok:
+            E.raise_(struct.error, "unpack requires a buffer of %d bytes" % total, implicit="struct")
+    elif not E.branch(need if exact else z3.And(need, zint(off) >= 0)):
+        E.raise_(struct.error, "unpack requires a buffer of %d bytes" % total, implicit="struct")
+    res, pos = [], off
+    for n, signed in items:
+        bs = [raw_byte(s.kind, s.get(pos + i if isinstance(pos, int) else z3.simplify(zint(pos) + i))) for i in range(n)]
+        res.append(wrap_int(dec_int(bs, signed, order)))
+        pos = pos + n if isinstance(pos, int) else zint(pos) + n
+    return tuple(res)
 
 
 @register(struct.unpack)
 def m_unpack(E, fmt, buf):
-    if fmt not in _FMT:
-        raise Unsupported("struct format %r" % fmt)
-    n, signed, order = _FMT[fmt]
-    s = as_seq(E, buf)
-    if s.kind not in BYTESLIKE:
-        E.raise_(TypeError, "a bytes-like object is required", implicit="struct")
-    if isinstance(s.length, int):
-        if s.length != n:
-            E.raise_(struct.error, "unpack requires a buffer of %d bytes" % n, implicit="struct")
-    elif not E.branch(s.length == n):
-        E.raise_(struct.error, "unpack requires a buffer of %d bytes" % n, implicit="struct")
-    bs = [raw_byte(s.kind, s.get(i)) for i in range(n)]
-    return (wrap_int(dec_int(bs, signed, order)),)
+    return _unpack_at(E, fmt, buf, 0, True)
+
+
+@register(struct.unpack_from)
+def m_unpack_from(E, fmt, buf, offset=0):
+    off = E.as_int(offset)
+    return _unpack_at(E, fmt, buf, off, False)
+
+
+class StructObj:
+    """a precompiled struct.Struct object living in the repository's module namespace"""
+
+    @staticmethod
+    def method(E, st, name, args, kwargs):
+        if name == "pack":
+            return m_pack(E, st.format, *args)
+        if name == "unpack":
+            return m_unpack(E, st.format, *args)
+        if name == "unpack_from":
+            return m_unpack_from(E, st.format, *args, **kwargs)
+        raise Unsupported("struct.Struct.%s" % name)
 
 
 @register(struct.calcsize)
